@@ -53,6 +53,17 @@ def _add_transposed(ds):
     return ds["a"] + ds["bt"].transpose("x", "y") * 2
 
 
+def _ds_load(a, b, how):
+    import xarray as xr
+
+    ds = xr.Dataset({"p": a + 1, "q": a + 1, "r": b * 2, "s": a - b})
+    ds = ds.assign(t=ds.p)
+    out = getattr(ds, how)()
+    if how == "persist":
+        out = out.compute()
+    return xr.concat([out[k] for k in ("p", "q", "r", "s", "t")], dim="x")
+
+
 def xr_programs():
     """Small xarray programs; each returns a function of a DataArray/Dataset -> DataArray."""
     import xarray as xr
@@ -89,6 +100,12 @@ def xr_programs():
         "isnull_count": lambda a, b: a.where(a > 4).isnull().sum("x"),
         "roll": lambda a, b: a.roll(y=1, roll_coords=False),
         "apply_ufunc": lambda a, b: xr.apply_ufunc(__import__("numpy").add, a, b, dask="allowed"),
+        # several variables loaded in one call, two of them carrying the very same expression
+        "dataset_shared_vars_compute": lambda a, b: _ds_load(a, b, "compute"),
+        "dataset_shared_vars_load": lambda a, b: _ds_load(a, b, "load"),
+        "dataset_shared_vars_persist": lambda a, b: _ds_load(a, b, "persist"),
+        "rolling_mean_second_axis": lambda a, b: a.rolling(y=3, min_periods=1).mean(),
+        "rolling_max_second_axis_long_window": lambda a, b: a.chunk({"y": 1}).rolling(y=3).max() if a.chunks else a.rolling(y=3).max(),
     }
     return progs
 
